@@ -157,15 +157,15 @@ func treeFiles() map[string][]byte {
 // relative to the link's directory; "@out" / "@sib" are replaced by the
 // absolute outside directories).
 var treeLinks = map[string]string{
-	"link-in.txt":     "a.txt",            // inside -> inside
-	"link-in.js":      "app.js",           // inside -> inside (minified under the link's name)
-	"link-dir":        "sub",              // directory link inside -> inside
-	"link-abs-in.txt": "@root/c39/a.txt",  // absolute target inside the root
-	"link-out.txt":    "@out/canary.txt",  // absolute target outside
-	"link-out.js":     "@out/canary.js",   // outside, .js
-	"link-outdir":     "@out/dir",         // directory link to outside
+	"link-in.txt":     "a.txt",                           // inside -> inside
+	"link-in.js":      "app.js",                          // inside -> inside (minified under the link's name)
+	"link-dir":        "sub",                             // directory link inside -> inside
+	"link-abs-in.txt": "@root/c39/a.txt",                 // absolute target inside the root
+	"link-out.txt":    "@out/canary.txt",                 // absolute target outside
+	"link-out.js":     "@out/canary.js",                  // outside, .js
+	"link-outdir":     "@out/dir",                        // directory link to outside
 	"link-rel-out":    "../../../c39-outside/canary.txt", // relative target leaving <lib>
-	"link-sib.txt":    "@sib/canary.txt",  // inside <lib> but outside <lib>/assets
+	"link-sib.txt":    "@sib/canary.txt",                 // inside <lib> but outside <lib>/assets
 	"link-dangling":   "nowhere.txt",
 	"link-loop":       "link-loop",
 }
